@@ -112,6 +112,9 @@ pub struct MutableArchive {
     attributes_dirty: bool,
     /// Track modified blocks for CRC calculation (block_index -> filename)
     modified_blocks: HashMap<u32, String>,
+    /// CRC32 and MD5 of the plain data of every block stored in this session (taken when the
+    /// data was handed in: a compressed or encrypted block cannot be read back before the flush)
+    modified_checksums: HashMap<u32, (u32, [u8; 16])>,
 }
 
 impl MutableArchive {
@@ -149,6 +152,7 @@ impl MutableArchive {
             _special_file_blocks: HashMap::new(),
             attributes_dirty: false,
             modified_blocks: HashMap::new(),
+            modified_checksums: HashMap::new(),
         })
     }
 
@@ -429,6 +433,9 @@ impl MutableArchive {
         if archive_name != "(attributes)" {
             self.modified_blocks
                 .insert(block_index, archive_name.clone());
+            use md5::{Digest, Md5};
+            self.modified_checksums
+                .insert(block_index, (crc32fast::hash(data), Md5::digest(data).into()));
         }
 
         // Update (listfile) if present (but not if we're adding the listfile itself)
@@ -723,6 +730,7 @@ impl MutableArchive {
         self.next_file_offset = None;
         self.attributes_dirty = false;
         self.modified_blocks.clear();
+        self.modified_checksums.clear();
 
         Ok(())
     }
@@ -833,6 +841,17 @@ impl MutableArchive {
             // Update timestamp for modified files
             if attrs.flags.has_filetime() {
                 attrs.file_attributes[block_idx].filetime = Some(filetime);
+            }
+
+            // Checksums of the data stored in this session were taken when it was handed in
+            if let Some(&(crc, md5)) = self.modified_checksums.get(&(block_idx as u32)) {
+                if attrs.flags.has_crc32() {
+                    attrs.file_attributes[block_idx].crc32 = Some(crc);
+                }
+                if attrs.flags.has_md5() {
+                    attrs.file_attributes[block_idx].md5 = Some(md5);
+                }
+                continue;
             }
 
             // Calculate CRC32 if enabled
